@@ -4,25 +4,33 @@
    (all in src/c/_cffi_backend.c):
 
      KOwn        ffi.new("T[n]") and the struct object behind ffi.new("struct *"): the memory is
-                 part of the Python object (allocate_owning_object :3737, freed by cdata_dealloc)
+                 part of the Python object (allocate_owning_object, freed by cdata_dealloc :1944)
      KStructPtr  the pointer returned by ffi.new("struct *"): strong reference [structobj]
-                 (direct_newp :3922-3942; p[0] returns structobj, cdataowning_subscript :2713)
+                 (direct_newp :3881, the store at :3964; p[0] returns structobj, cdataowning_subscript)
      KGcp        ffi.gc(p, d) wrappers and everything a custom allocator returns
-                 (allocate_gcp_object :3784, allocate_with_allocator :3805-3850, b_gcp :7373):
+                 (allocate_gcp_object, allocate_with_allocator, b_gcp :7423):
                  fields origobj, destructor;
-                 cdatagcp_finalize :2075 (tp_finalize, also called by release) clears both fields and
-                 calls gcp_finalize :2041; cdatagcp_dealloc :2084 calls gcp_finalize on the
-                 current fields; gc(p, None) = Py_CLEAR(destructor) :7394
+                 cdatagcp_finalize :2099 (tp_finalize, also called by release) clears both fields and
+                 THEN calls gcp_finalize :2065; cdatagcp_dealloc :2108 calls gcp_finalize on the
+                 current fields; gc(p, None) = Py_CLEAR(destructor) :7443
      KRaw        the cdata returned by a user alloc(): identifies one allocation
-     KFromBuf    ffi.from_buffer(): Py_buffer view on [src] (direct_from_buffer :7205);
-                 PyBuffer_Release on release (cdata_exit :3359), tp_clear :2028, dealloc :1979
-     KHandle     ffi.new_handle(x) (newp_handle :7125); from_handle reads structobj :7185
+     KFromBuf    ffi.from_buffer(): Py_buffer view on [src] (direct_from_buffer);
+                 PyBuffer_Release on release (cdata_exit :3390), tp_clear :2052, dealloc :2003
+     KHandle     ffi.new_handle(x) (newp_handle); from_handle reads structobj (b_from_handle)
      KPy         a plain Python object: handle target, buffer source (with its list of
                  exporters = live Py_buffer views; a bytearray refuses to resize while the list
                  is not empty), attribute references used to build cycles
 
-   cdata_exit :3337 (ffi.release / with-exit): KOwn nothing; KStructPtr whose structobj is a
-   KGcp: cdatagcp_finalize(structobj); KFromBuf: PyBuffer_Release; KGcp: cdatagcp_finalize.
+   cdata_exit :3365 / explicit_release_case :3337 (ffi.release / with-exit): KOwn array nothing;
+   KStructPtr whose structobj is a KGcp: cdatagcp_finalize(structobj); KFromBuf: PyBuffer_Release;
+   KGcp: cdatagcp_finalize; the struct object p[0], handles: ValueError; not a cdata: TypeError.
+
+   (Line numbers: /repo HEAD 2d93229.)  The reference edges ([refs_of]), what finalisation clears and
+   calls ([run_dtor], [cancel]) and the release dispatch ([release_case], [exit_action_of]) are
+   DEFINED FROM the tables of C21/Gen.v, which tools/props/c21_regen.py extracts from the C source
+   on every run: gen_traverse (Py_VISIT lists), gen_structptr_owns, gen_finalize_cleared,
+   gen_finalize_clears_first, gen_gcp_finalize_calls, gen_dealloc_finalizes, gen_gcnone_clears,
+   gen_release_case, gen_exit_table.
 
    Deallocation is an event of the runtime ([OCollect S]): CPython frees a set S of objects
    that nobody outside S refers to and that no variable holds — one object whose reference
@@ -76,23 +84,53 @@ Definition with_roots (o : obj) (r : nat) :=
 
 Definition opt_list (x : option nat) : list nat := match x with Some i => [i] | None => [] end.
 
-(* strong references held by an object = the edges its type reports to the cyclic collector:
-     cdatagcp_traverse :2094        Py_VISIT(destructor); Py_VISIT(origobj)  -- BOTH, independently:
+(* ---- lookups in the regenerated tables (C21/Gen.v) *)
+Definition pytype_eqb (a b : pytype) : bool :=
+  match a, b with
+  | POwning, POwning | POwningGC, POwningGC | PFromBuf, PFromBuf | PGcp, PGcp => true
+  | _, _ => false
+  end.
+Definition ctguard_eqb (a b : ctguard) : bool :=
+  match a, b with
+  | GAny, GAny | GPtrOrArray, GPtrOrArray | GHandle, GHandle | GCallback, GCallback => true
+  | _, _ => false
+  end.
+Definition gfield_eqb (a b : gfield) : bool :=
+  match a, b with
+  | FStructobj, FStructobj | FClosureArgs, FClosureArgs | FViewObj, FViewObj
+  | FDestructor, FDestructor | FOrigobj, FOrigobj => true
+  | _, _ => false
+  end.
+Definition has_field (f : gfield) (l : list gfield) : bool := existsb (gfield_eqb f) l.
+
+(* tp_traverse of Python type [p] under ctype test [g] gives field [f] to Py_VISIT *)
+Definition visits (p : pytype) (g : ctguard) (f : gfield) : bool :=
+  existsb (fun e => pytype_eqb (fst (fst e)) p && ctguard_eqb (snd (fst e)) g && has_field f (snd e))
+          gen_traverse.
+
+(* strong references held by an object = the edges its type reports to the cyclic collector
+   (Gen.gen_traverse, regenerated):
+     cdatagcp_traverse :2118        Py_VISIT(destructor); Py_VISIT(origobj)  -- BOTH, independently:
                                     origobj is an edge also when the destructor slot is NULL
                                     (after gc(w, None), or an allocator without free)
-     cdataowninggc_traverse :1989   handle: Py_VISIT(structobj)
-     cdatafrombuf_traverse :2003    Py_VISIT(view->obj)
-     CDataOwning_Type (struct pointer) is not a GC type: it holds structobj by reference count only
+     cdataowninggc_traverse :2013   handle: Py_VISIT(structobj)
+     cdatafrombuf_traverse :2027    Py_VISIT(view->obj)
+   CDataOwning_Type (struct pointer) is not a GC type: it holds structobj by reference count only,
+   from the store in direct_newp :3964 to the Py_DECREF in cdataowning_dealloc :1960
+   (Gen.gen_structptr_owns).
    [garbage] and [reachable] are computed from these edges: an edge missing from tp_traverse makes
    the real collector leave a cycle alone that the model frees (seen as "still alive" by the run). *)
 Definition refs_of (o : obj) : list nat :=
   if alive o then
     match k o with
     | KOwn | KRaw => []
-    | KStructPtr s => [s]
-    | KGcp orig dtor => opt_list orig ++ match dtor with Some y => opt_list y | None => [] end
-    | KFromBuf src view => if view then [src] else []
-    | KHandle x => [x]
+    | KStructPtr s => if gen_structptr_owns then [s] else []
+    | KGcp orig dtor =>
+        (if visits PGcp GAny FOrigobj then opt_list orig else [])
+        ++ (if visits PGcp GAny FDestructor
+            then match dtor with Some y => opt_list y | None => [] end else [])
+    | KFromBuf src view => if visits PFromBuf GAny FViewObj then (if view then [src] else []) else []
+    | KHandle x => if visits POwningGC GHandle FStructobj then [x] else []
     | KPy refs _ => refs
     end
   else [].
@@ -109,24 +147,35 @@ Definition addr_free (s : state) (a : nat) : bool :=
 
 Definition alloc (s : state) (o : obj) : state := mkstate (upd (objs s) (next s) o) (S (next s)).
 
-(* cdatagcp_finalize: both fields cleared; the destructor, if still there, is called *)
+(* cdatagcp_finalize :2099: the fields of Gen.gen_finalize_cleared are set to NULL (both, on the
+   unchanged source); the destructor that was there is called by gcp_finalize
+   (Gen.gen_gcp_finalize_calls call sites under `destructor != NULL`: one).
+   cdatagcp_dealloc :2108 passes the current fields to the same gcp_finalize. *)
+Definition fin_clears (f : gfield) : bool := has_field f gen_finalize_cleared.
 Definition run_dtor (o : obj) : obj :=
   match k o with
-  | KGcp _ (Some _) =>
-      mkobj (KGcp None None) (alive o) (roots o) (addr o) (S (calls o)) (had o) (cancelled o)
+  | KGcp orig (Some y) =>
+      mkobj (KGcp (if fin_clears FOrigobj then None else orig)
+                  (if fin_clears FDestructor then None else Some y))
+            (alive o) (roots o) (addr o) (gen_gcp_finalize_calls + calls o) (had o) (cancelled o)
             (released o) (horig o)
-  | KGcp _ None => with_k o (KGcp None None)
+  | KGcp orig None => with_k o (KGcp (if fin_clears FOrigobj then None else orig) None)
   | _ => o
   end.
 
 Definition mark_released (o : obj) : obj :=
   mkobj (k o) (alive o) (roots o) (addr o) (calls o) (had o) (cancelled o) true (horig o).
 
-(* gc(w, None): Py_CLEAR(destructor) *)
+(* gc(w, None): Py_CLEAR of the fields of Gen.gen_gcnone_clears (b_gcp :7443: the destructor only;
+   origobj is kept) *)
+Definition gcnone_clears (f : gfield) : bool := has_field f gen_gcnone_clears.
 Definition cancel (o : obj) : obj :=
   match k o with
-  | KGcp orig (Some _) =>
-      mkobj (KGcp orig None) (alive o) (roots o) (addr o) (calls o) (had o) true (released o) (horig o)
+  | KGcp orig (Some y) =>
+      mkobj (KGcp (if gcnone_clears FOrigobj then None else orig)
+                  (if gcnone_clears FDestructor then None else Some y))
+            (alive o) (roots o) (addr o) (calls o) (had o)
+            (if gcnone_clears FDestructor then true else cancelled o) (released o) (horig o)
   | _ => o
   end.
 
@@ -154,7 +203,8 @@ Definition kill (o : obj) : obj :=
 (* tp_dealloc of one object *)
 Definition dealloc (s : state) (i : nat) : state :=
   let s1 := release_view s i in                          (* cdatafrombuf_dealloc *)
-  set_obj s1 i (kill (run_dtor (get s1 i))).             (* cdatagcp_dealloc -> gcp_finalize *)
+  set_obj s1 i (kill (if gen_dealloc_finalizes then run_dtor (get s1 i) else get s1 i)).
+                                                         (* cdatagcp_dealloc -> gcp_finalize *)
 
 (* S is a duplicate-free set of live objects that no variable holds and that only members of
    S refer to *)
@@ -255,6 +305,69 @@ Definition leak_export (s : state) (src : nat) : state :=
   | _ => s
   end.
 
+(* ---- ffi.release(x) / with x: — explicit_release_case :3337 and cdata_exit :3365, both regenerated
+   (Gen.gen_release_case, Gen.gen_exit_table) *)
+(* the struct object behind ffi.new("struct s *") (what p[0] returns) has a struct ctype, every other
+   KOwn object of the model is an array; ONewStruct creates the pointer right after its struct *)
+Definition own_is_struct (s : state) (i : nat) : bool :=
+  match k (get s (S i)) with KStructPtr st => Nat.eqb st i | _ => false end.
+
+Definition pytype_of (kd : kind) : option pytype :=
+  match kd with
+  | KOwn | KRaw | KStructPtr _ => Some POwning
+  | KGcp _ _ => Some PGcp
+  | KFromBuf _ _ => Some PFromBuf
+  | KHandle _ => Some POwningGC
+  | KPy _ _ => None                                  (* not a cdata *)
+  end.
+
+Definition guard_holds (g : ctguard) (s : state) (i : nat) : bool :=
+  match g with
+  | GAny => true
+  | GPtrOrArray => match k (get s i) with
+                   | KOwn => negb (own_is_struct s i)
+                   | KPy _ _ => false
+                   | _ => true
+                   end
+  | GHandle => match k (get s i) with KHandle _ => true | _ => false end
+  | GCallback => false
+  end.
+
+(* Some case, or None = ValueError *)
+Definition release_case (s : state) (i : nat) : option nat :=
+  match pytype_of (k (get s i)) with
+  | Some p =>
+      match find (fun e => pytype_eqb (fst (fst e)) p && guard_holds (snd (fst e)) s i) gen_release_case with
+      | Some e => Some (snd e)
+      | None => None
+      end
+  | None => None
+  end.
+
+Definition exit_action_of (c : nat) : exit_action :=
+  match find (fun e => Nat.eqb (fst e) c) gen_exit_table with
+  | Some e => snd e
+  | None => XNothing
+  end.
+
+Definition do_exit (s : state) (i : nat) (a : exit_action) : state :=
+  match a with
+  | XNothing => s
+  | XFinalizeStructobjIfGcp =>
+      match k (get s i) with
+      | KStructPtr st => if is_gcp (get s st) then finalize_at s st else s
+      | _ => s
+      end
+  | XBufferRelease => let s1 := release_view s i in set_obj s1 i (mark_released (get s1 i))
+  | XFinalizeSelf => finalize_at s i
+  end.
+
+Definition release (s : state) (i : nat) : state :=
+  match release_case s i with
+  | Some c => do_exit s i (exit_action_of c)
+  | None => s                                          (* ValueError / TypeError: see [out] *)
+  end.
+
 Definition step (s : state) (o : op) : state :=
   match o with
   | ONew a =>
@@ -298,16 +411,7 @@ Definition step (s : state) (o : op) : state :=
       else s
   | OGcNone w =>
       if usable s w then set_obj s w (cancel (get s w)) else s
-  | ORelease i =>
-      if usable s i then
-        match k (get s i) with
-        | KOwn => s
-        | KStructPtr st => if is_gcp (get s st) then finalize_at s st else s
-        | KFromBuf _ _ => let s1 := release_view s i in set_obj s1 i (mark_released (get s1 i))
-        | KGcp _ _ => finalize_at s i
-        | _ => s                                      (* ValueError *)
-        end
-      else s
+  | ORelease i => if usable s i then release s i else s
   | OHold i => if usable s i then hold s i else s
   | ODrop i =>
       if usable s i then set_obj s i (with_roots (get s i) (pred (roots (get s i)))) else s
@@ -342,6 +446,37 @@ Definition step (s : state) (o : op) : state :=
 
 Definition run (ops : list op) : state := fold_left step ops init.
 
+(* ---- what the operation returns to the program.  RSkip: the operand is not held by a variable (the
+   operation is not executed).  Only release and gc(x, None) can fail in the histories modelled. *)
+Inductive res := ROk | RValueError | RTypeError | RSkip.
+
+Definition out (s : state) (o : op) : res :=
+  match o with
+  | ORelease i =>
+      if usable s i then
+        match pytype_of (k (get s i)) with
+        | None => RTypeError                           (* b_release :7453: not a cdata *)
+        | Some _ => match release_case s i with Some _ => ROk | None => RValueError end
+        end
+      else RSkip
+  | OGcNone w =>
+      (* b_gcp :7437: TypeError unless CDataGCP_Type (also when x is not a cdata: "O!") *)
+      if usable s w then (if is_gcp (get s w) then ROk else RTypeError) else RSkip
+  | _ => ROk
+  end.
+
+Definition stepr (s : state) (o : op) : state * res := (step s o, out s o).
+
+Definition res_code (r : res) : nat :=
+  match r with ROk | RSkip => 0 | RValueError => 1 | RTypeError => 2 end.
+
+Fixpoint outs (s : state) (ops : list op) : list nat :=
+  match ops with
+  | [] => []
+  | o :: ops' => res_code (out s o) :: outs (step s o) ops'
+  end.
+
+
 (* ffi.from_handle applied to an ADDRESS (what C code hands back): the live object at that
    address, if it is a handle, gives its structobj; anything else is the fatal error *)
 Definition from_handle_addr (s : state) (a : nat) : option nat :=
@@ -363,4 +498,86 @@ Fixpoint trace (s : state) (ops : list op) : list (list (bool * nat * bool)) :=
   match ops with
   | [] => []
   | o :: ops' => let s' := step s o in observe s' :: trace s' ops'
+  end.
+
+(* ---- re-entrant destructors.  A destructor may, while it runs, act on the very wrapper that is
+   being finalised: call ffi.release(w) on it, or ffi.gc(w, None).  What makes "at most once" true
+   then is the ORDER of cdatagcp_finalize :2099-2105: both fields are set to NULL BEFORE
+   gcp_finalize calls the destructor (Gen.gen_finalize_clears_first), so the nested
+   cdatagcp_finalize finds no destructor.  [finalize_re] keeps that order explicit:
+   read + clear (if the source clears first), call (the nested action happens inside), clear
+   (if the source clears afterwards).  The nesting depth is bounded by [fuel] only for the
+   hypothetical clears-afterwards source, where the real recursion would not end. *)
+Inductive reent := RNothing | RReleaseSelf | RGcNoneSelf.
+
+Definition has_dtor (o : obj) : bool := match k o with KGcp _ (Some _) => true | _ => false end.
+
+Definition clear_fin (o : obj) : obj :=
+  match k o with
+  | KGcp orig d => with_k o (KGcp (if fin_clears FOrigobj then None else orig)
+                                  (if fin_clears FDestructor then None else d))
+  | _ => o
+  end.
+
+Definition call_dtor (o : obj) : obj :=
+  mkobj (k o) (alive o) (roots o) (addr o) (gen_gcp_finalize_calls + calls o) (had o) (cancelled o)
+        (released o) (horig o).
+
+Fixpoint finalize_re (fuel : nat) (r : reent) (o : obj) : obj :=
+  if has_dtor o then
+    let o1 := if gen_finalize_clears_first then clear_fin o else o in
+    let o2 := call_dtor o1 in
+    let o3 := match r, fuel with
+              | RReleaseSelf, S f => mark_released (finalize_re f r o2)
+              | RGcNoneSelf, _ => cancel o2
+              | _, _ => o2
+              end in
+    if gen_finalize_clears_first then o3 else clear_fin o3
+  else clear_fin o.
+
+Definition finalize_at_re (r : reent) (s : state) (i : nat) : state :=
+  set_obj s i (mark_released (finalize_re 2 r (get s i))).
+
+Definition do_exit_re (r : reent) (s : state) (i : nat) (a : exit_action) : state :=
+  match a with
+  | XNothing => s
+  | XFinalizeStructobjIfGcp =>
+      match k (get s i) with
+      | KStructPtr st => if is_gcp (get s st) then finalize_at_re r s st else s
+      | _ => s
+      end
+  | XBufferRelease => let s1 := release_view s i in set_obj s1 i (mark_released (get s1 i))
+  | XFinalizeSelf => finalize_at_re r s i
+  end.
+
+(* histories with re-entrant releases: OReleaseRe i r = ffi.release(i) / with i: where the destructor
+   that runs performs [r] on the wrapper being finalised *)
+Inductive op2 := OBase (o : op) | OReleaseRe (i : nat) (r : reent).
+
+Definition step2 (s : state) (o : op2) : state :=
+  match o with
+  | OBase o => step s o
+  | OReleaseRe i r =>
+      if usable s i then
+        match release_case s i with
+        | Some c => do_exit_re r s i (exit_action_of c)
+        | None => s
+        end
+      else s
+  end.
+
+Definition run2 (ops : list op2) : state := fold_left step2 ops init.
+Definition erase (o : op2) : op := match o with OBase o => o | OReleaseRe i _ => ORelease i end.
+
+(* observation and results along a history with re-entrant releases (correspondence run) *)
+Fixpoint trace2 (s : state) (ops : list op2) : list (list (bool * nat * bool)) :=
+  match ops with
+  | [] => []
+  | o :: ops' => let s' := step2 s o in observe s' :: trace2 s' ops'
+  end.
+
+Fixpoint outs2 (s : state) (ops : list op2) : list nat :=
+  match ops with
+  | [] => []
+  | o :: ops' => res_code (out s (erase o)) :: outs2 (step2 s o) ops'
   end.
